@@ -93,6 +93,13 @@ OPS_B = [
     ("unwrapor", re.compile(r"\.is_err\(\)"), [".is_ok()"]),
     ("unwrapor", re.compile(r"\.is_empty\(\)"), [".len() == 1"]),
 ]
+# third operator set (--ops C): "wrong variable" (an identifier replaced by another local of the same function), swapped
+# arguments of a two-argument call, and byte constants of the same family exchanged (white space / delimiters)
+OPS_C = [("idsub", None, None), ("argswap", re.compile(r"\b([a-z_][\w\.]*)\(([a-z_][\w\.]*), ([a-z_][\w\.]*)\)"), None),
+         ("bytefam", re.compile(r"(?<![\w\.\"'])(0|9|10|12|13|32|37|40|41|47|60|62|91|93)(?![\w\.\"'])"), None)]
+BYTEFAM = {"0": "32", "9": "32", "10": "13", "13": "10", "12": "10", "32": "10", "37": "47", "40": "41", "41": "40", "47": "37",
+           "60": "62", "62": "60", "91": "93", "93": "91"}
+KEYWORDS = set("let mut if else match for in while loop return break continue fn pub impl self Self struct enum use mod as ref move true false Some None Ok Err where dyn crate super const static type trait unsafe".split())
 ACTIVE_OPS = OPS
 STMT = re.compile(r"^\s*(?!let\b|return\b|break\b|continue\b)[a-z_][\w\.]*(\.[a-z_]+\([^;]*\)|\s*(\+|-)?=\s*[^;]+);\s*$")
 
@@ -116,6 +123,17 @@ def mutants_of(path):
         if re.match(r"\s*#\[cfg\(test\)\]", l):
             end = i; break
     out = []
+    # locals per function (for the identifier-substitution operator): names bound by `let` / parameters between two `fn` lines
+    fn_locals, cur = {}, set()
+    fn_start = 0
+    for i in range(end):
+        if re.match(r"\s*(pub(\([a-z]+\))? )?fn \w+", lines[i]):
+            for j in range(fn_start, i): fn_locals[j] = cur
+            cur, fn_start = set(), i
+            for m in re.finditer(r"\b([a-z_]\w*)\s*:", lines[i]): cur.add(m.group(1))
+        for m in re.finditer(r"\blet (?:mut )?\(?([a-z_]\w*)", lines[i]): cur.add(m.group(1))
+        for m in re.finditer(r"\bfor \(?([a-z_]\w*)", lines[i]): cur.add(m.group(1))
+    for j in range(fn_start, end): fn_locals[j] = cur
     for i in range(end):
         l = lines[i]
         if SKIP_LINE.search(l): continue
@@ -123,6 +141,25 @@ def mutants_of(path):
         if not code.strip(): continue
         for kind, rx, reps in ACTIVE_OPS:
             if kind == "some": continue
+            if kind == "idsub":
+                locs = sorted(x for x in fn_locals.get(i, set()) if x not in KEYWORDS and len(x) > 1 and x != "_")
+                if len(locs) < 2 or re.match(r"\s*let ", code): continue
+                for m in re.finditer(r"(?<![\w\.])([a-z_]\w*)(?![\w\(!:])", code):
+                    if in_string(code, m.start()) or m.group(1) not in locs: continue
+                    for other in locs:
+                        if other != m.group(1):
+                            out.append((i, kind, l, code[:m.start(1)] + other + code[m.end(1):] + cmt))
+                continue
+            if kind == "argswap":
+                for m in rx.finditer(code):
+                    if in_string(code, m.start()) or m.group(2) == m.group(3): continue
+                    out.append((i, kind, l, code[:m.start(2)] + m.group(3) + ", " + m.group(2) + code[m.end(3):] + cmt))
+                continue
+            if kind == "bytefam":
+                for m in rx.finditer(code):
+                    if in_string(code, m.start()): continue
+                    out.append((i, kind, l, code[:m.start(1)] + BYTEFAM[m.group(1)] + code[m.end(1):] + cmt))
+                continue
             for m in rx.finditer(code):
                 if in_string(code, m.start()): continue
                 if kind == "constm":
@@ -256,6 +293,7 @@ def main():
     a = ap.parse_args()
     global ACTIVE_OPS
     if a.ops == "B": ACTIVE_OPS = OPS_B
+    if a.ops == "C": ACTIVE_OPS = OPS_C
     os.makedirs(a.out, exist_ok=True)
     resf = os.path.join(a.out, "results.jsonl" if a.ops == "A" else f"results_{a.ops}.jsonl")
     if a.resname: resf = os.path.join(a.out, a.resname)
@@ -274,8 +312,13 @@ def main():
         rng2.shuffle(ms)
         # at most one mutant per (line, op kind) among the sample, to spread over the file
         seen, pick = set(), []
+        cnt = {}
         for m in ms:
             k = (m[0], m[1])
+            if m[1] == "idsub":                      # up to two different substitutions per line (most do not type-check)
+                cnt[k] = cnt.get(k, 0) + 1
+                if cnt[k] > 2: continue
+                k = (m[0], m[1], cnt[k])
             if k in seen: continue
             seen.add(k); pick.append(m)
             if len(pick) >= a.per_file: break
